@@ -88,6 +88,13 @@ def pSet : P (Nat × SetE) := fun cs =>
     | _ => none
   | _ => none
 
+/-- upsert assignment := col ':V' | col ':l' val -/
+def pUpAssign : P (Nat × UpSrc) := fun cs =>
+  match pNat cs with
+  | some (c, ':' :: 'V' :: r) => some ((c, .values), r)
+  | some (c, ':' :: 'l' :: r) => (pVal r).map fun (v, r') => ((c, .lit v), r')
+  | _ => none
+
 def pArgs : P Args := fun cs =>
   match cs with
   | 'G' :: r => match pNat r with
@@ -108,6 +115,15 @@ def pStmt : P (Stmt × Args) := fun cs =>
     | 'X' :: r => match pNat r with
       | some (nr, ':' :: r1) => match pNat r1 with
         | some (nc, ':' :: r2) => (pMany (pMany pExpr nc) nr r2).map fun (rows, r3) => (.insert rows, r3)
+        | _ => none
+      | _ => none
+    | 'Y' :: r => match pNat r with       -- 'Y' nrows ':' ncols ':' expr* 'A' n ':' assign*
+      | some (nr, ':' :: r1) => match pNat r1 with
+        | some (nc, ':' :: r2) => match pMany (pMany pExpr nc) nr r2 with
+          | some (rows, 'A' :: r3) => match pNat r3 with
+            | some (na, ':' :: r4) => (pMany pUpAssign na r4).map fun (asg, r5) => (.upsert rows asg, r5)
+            | _ => none
+          | _ => none
         | _ => none
       | _ => none
     | _ => none
